@@ -11,9 +11,13 @@ META = {
             "touched only when all earlier parts are taken in full), on top of the funding algebra (take_exact, take_iff_covered, max_respected, "
             "concat_conserves, portions_sum, portions_shape; allocate_sum_any: no sign condition). Spec is tied to compiler+VM by the end-to-end differential; "
             "independent oracles on the implementation's postings: non-negativity and exactness of single-send scripts (portions with fractional percents, "
-            "denominators up to 10^4, totals at / next to 100 %, amounts up to 2^70), and the ordering clause (ordered-sources: in a single send over an "
-            "ordered, possibly nested list of plain / capped / bounded-overdraft sources in one asset every leaf gives all it can before the next one gives "
-            "anything, computed in Python from the balances; the same account at two non-adjacent places included), and the portion clause "
+            "denominators up to 10^4, totals at / next to 100 %, amounts up to 2^70), and the ordering clause (ordered-sources / ordered-destinations / "
+            "kept-amount / send-all-not-exact: EVERY send of a script of sends is judged on its own postings and on the balances at that point of the "
+            "script — stored balances plus the postings of the earlier statements —: over an ordered, possibly nested list of plain / capped / "
+            "bounded-overdraft sources in one asset, ending with @world or an unbounded overdraft or not, every leaf gives all it can before the next one "
+            "gives anything, the same account at two non-adjacent places included; an ordered destination with `max … kept` / `remaining kept` entries, "
+            "nested at will, sends the FIRST units of the funding in entry order and keeps the stated amount off its END, so the latest sources keep "
+            "theirs; `send [A *]` moves exactly what its sources hold at that point; all computed in Python from the balances), and the portion clause "
             "(portion-shares: in a single send whose destination — resp. source — is an allotment of plain entries and whose portions can be "
             "evaluated from the input alone — literals n/d and x.y%, portion variables of the request, portions read from stored metadata, "
             "remaining — every entry receives / gives floor(n*p) plus one of the leftover units for the earliest entries, computed with Python "
@@ -40,9 +44,8 @@ def verdicts(inp, out, exact=None, ordst=None, shst=None):
         if int(p[2]) < 0:
             v.append(({"property": "C03", "class": "negative-posting"}, "posting %d is negative" % n))
     # ordering clause, on the postings alone (no Lean model involved)
-    w = ordered_sources_verdict(inp, out, ordst)
-    if w:
-        v.append(({"property": "C03", "class": "ordered-sources"}, w))
+    for keys, w in ordered_verdicts(inp, out, ordst):
+        v.append((dict({"property": "C03"}, **keys), w))
     sends = [s for s in inp["ast"]["stmts"] if s["k"] == "send"]
     # a send moves the asset it names: with only sends in the script, every posting's asset is one of the stated ones
     if sends and all(s["k"] != "fail" for s in inp["ast"]["stmts"]):
@@ -104,6 +107,7 @@ def run(ctx):
     ctx.cov["portion_shares_oracle"] = dict(shst)
     ctx.cov["replay_isolation"] = dict(rp.stats)
     ctx.cov["exactness_oracle"] = dict(exact)
+    ctx.cov["focused_shapes"] = focus_stats(inputs, impl)
     ctx.cov["evaluations"] = len(inputs)
     ctx.cov["distinct_nontrivial"] = nontrivial
     ctx.cov["rule"] = "same generator as C01; non-trivial = distinct accepted case whose send has several sources or destinations or a cap"
